@@ -17,7 +17,11 @@ out.append("")
 out.append("### 7.4 Seeded changes (from independent agents) and which checks catch them\n")
 out.append("Each seeded change was produced by a fresh agent that saw only the property text and its own scratch worktree, was\n"
            "re-confirmed here (`tools/seed_verify.sh`: demo passes on the clean tree, fails with the change, pinned suite unchanged)\n"
-           "and then run against the quick tier of the property's check (`tools/seed_run.sh`). Patches live in `/verif/seeded/<id>/`.\n")
+           "and then run against the quick tier of the property's check (`tools/seed_run.sh`). Patches live in `/verif/seeded/<id>/`.\n"
+           "Every patch applies to the current /repo HEAD with `git apply`: where a later repository fix moved a patch's context it\n"
+           "was re-created against HEAD *keeping the fix* (`tools/seed_rebase.sh`, conflicts merged by hand) and re-confirmed; the\n"
+           "few changes that a later fix neutralises (their demonstration passes once the fix is kept) are marked as such, keep the\n"
+           "patch for the base commit named in their meta.json and are not counted as detections or misses.\n")
 out.append("| seeded change | detected by (quick tier) | first report |\n|---|---|---|")
 for d in sorted(glob.glob(V + '/seeded/*/meta.json')):
     m = json.load(open(d))
